@@ -249,8 +249,8 @@ def k_reuse(ctx, seed, start="ctor"):
                ("seg_ctrl", lambda: setattr(h, "seg_ctrl", d.SegmentationControl(g["segctrl"]))),
                ("pdu_data_field_len", lambda: setattr(h, "pdu_data_field_len", g["data_len"]))]
         if inplace:
-            how = r.choice(("int", "bytes"))
-            conv = (lambda v, w: v) if how == "int" else (lambda v, w: v.to_bytes(w, "big"))
+            how = r.choice(("int", "bytes", "longer_bytes"))
+            conv = (lambda v, w: v) if how == "int" else (lambda v, w: v.to_bytes(w, "big")) if how == "bytes" else (lambda v, w: v.to_bytes(w, "big") + b"\xa5\x5a\x00")
             ops += [(f"src.value={how}", lambda: setattr(h.source_entity_id, "value", conv(g["src"], g["idw"]))),
                     (f"dst.value={how}", lambda: setattr(h.dest_entity_id, "value", conv(g["dst"], g["idw"]))),
                     (f"seq.value={how}", lambda: setattr(h.transaction_seq_num, "value", conv(g["seq"], g["seqw"])))]
